@@ -45,6 +45,9 @@ func (g *gen) filler() *Form {
 	case x < 17:
 		return &Form{K: "Const", Lit: "int", Z: int64(g.rng.Intn(9))}
 	case x < 18:
+		if g.rng.Chance(4) {
+			return &Form{K: "Incf", N: 2} // v2 does not exist: unbound-variable
+		}
 		return &Form{K: "Incf", N: int64(g.rng.Intn(2))}
 	case x < 19:
 		return &Form{K: "CallList", A: []*Form{g.tr()}}
@@ -108,7 +111,7 @@ func (g *gen) leaf(c gctx, kind string) *Form {
 		}
 		g.nextK++
 		var val *Form = &Form{K: "Const", Lit: "int", Z: 1000 + g.nextK}
-		if g.rng.Chance(25) {
+		if g.rng.Chance(25) || (g.exitKind == "return-unknown" && g.rng.Chance(50)) {
 			val = g.tr()
 		} else if !g.safe && len(c.vb) > 0 && g.rng.Chance(6) {
 			val = &Form{K: "ReturnFrom", N: c.vb[g.rng.Intn(len(c.vb))], C: g.tr()}
